@@ -250,7 +250,13 @@ def bounded(seed: int = 0, **_: Any) -> Dict[str, Any]:
                               opt_special=special("v"), opt_items=[special("w"), leaf["c"]])
             for label, inst in (("Something", sth), ("Holder with implementation-specific parts", holder)):
                 cases += 1
-                got_d, want_d = list(inst.descend()), list(preorder(inst))
+                try:
+                    got_d, want_d = list(inst.descend()), list(preorder(inst))
+                except BaseException as e:  # noqa
+                    failures.append({"property": "C29", "case": f"descend vs descend_once recursively: {label}",
+                                     "observed": f"the traversal raised {type(e).__name__}: {e} (descend_once yields "
+                                                 f"something that is not an instance)"})
+                    continue
                 if len(got_d) != len(want_d) or any(x is not y for x, y in zip(got_d, want_d)):
                     failures.append({"property": "C29", "case": f"descend vs descend_once recursively: {label}",
                                      "observed": f"descend yields {len(got_d)} instances, the pre-order over descend_once "
